@@ -77,7 +77,11 @@ type Enc struct {
 	checkSafe bool
 	axSt      *State
 	immut     map[string]bool
-	allocRefs []Term
+	allocs    []allocInfo
+	allocIdx  map[Term]int
+	contEdges map[int][]int
+	pendingAllocComps []string
+	pendingAllocType  types.Type
 	frameChk  func(fr *Frame, what string, ref Term, st *State, rb Term, pos token.Pos)
 }
 
@@ -117,7 +121,7 @@ func (w *World) NewEnc() *Enc {
 	e := &Enc{w: w, sorts: st, sc: NewScript(st), comps: &Comps{sorts: map[string]string{}},
 		immut: map[string]bool{}, inlined: map[string]bool{}, trusted: map[string]bool{}, havocked: map[string]bool{}, effFree: map[string]bool{}, unsupp: map[string]bool{}, logs: map[string]bool{}}
 	e.comps.Register("$alloc", "(Array Int Bool)")
-	e.comps.Register("$priv", "(Array Int Bool)")
+	e.allocIdx = map[Term]int{}
 	return e
 }
 
@@ -877,15 +881,47 @@ func (e *Enc) refsOf(v Val, out []Term, depth int) []Term {
 	return out
 }
 
-// assumeNotPrivate: references read from the heap (or returned by a callee) are never private,
-// because a reference stops being private the moment it is stored or passed out.
-func (e *Enc) assumeNotPrivate(v Val, st *State) {
-	refs := e.refsOf(v, nil, 0)
-	if len(refs) == 0 {
-		return
+
+// typedRefsOf collects the reference terms contained in a value together with their static types.
+func (e *Enc) typedRefsOf(v Val, out []typedRef, depth int) []typedRef {
+	if depth > 4 || v.Typ == nil {
+		return out
 	}
-	p := e.Get(st, "$priv")
-	for _, r := range refs {
-		e.sc.Assert(not(app("select", p, r)))
+	if v.Tuple != nil {
+		for _, x := range v.Tuple {
+			out = e.typedRefsOf(x, out, depth+1)
+		}
+		return out
 	}
+	if v.Clo != nil {
+		for _, b := range v.Clo.Bind {
+			out = e.typedRefsOf(b, out, depth+1)
+		}
+		out = append(out, typedRef{v.T, v.Typ})
+		return out
+	}
+	if v.Addr != nil {
+		if v.Addr.Ref != "" {
+			out = append(out, typedRef{v.Addr.Ref, nil})
+		}
+		return out
+	}
+	switch u := v.Typ.Underlying().(type) {
+	case *types.Pointer, *types.Map, *types.Chan, *types.Signature:
+		out = append(out, typedRef{v.T, v.Typ})
+	case *types.Slice:
+		out = append(out, typedRef{"(sl_ref " + v.T + ")", v.Typ})
+	case *types.Interface:
+		out = append(out, typedRef{"(if_pay " + v.T + ")", nil})
+	case *types.Struct:
+		name := e.sortOf(v.Typ)
+		for i := 0; i < u.NumFields(); i++ {
+			ft := u.Field(i).Type()
+			if pureValueType(ft, 0) {
+				continue
+			}
+			out = e.typedRefsOf(Val{T: app(e.sorts.FieldSel(name, u, i), v.T), Typ: ft}, out, depth+1)
+		}
+	}
+	return out
 }
